@@ -19,9 +19,13 @@
 (***************************************************************************)
 EXTENDS Integers
 
-GoodOutcome(o) ==
+\* what holds for EVERY return of Parse, also for a refusal before any text is looked at
+CleanOutcome(o) ==
   /\ o.returned
   /\ ~o.panicked
   /\ o.leaked = 0
+
+GoodOutcome(o) ==
+  /\ CleanOutcome(o)
   /\ o.ok \/ (o.line >= 1 /\ o.line <= o.nlines)
 =============================================================================
